@@ -62,7 +62,8 @@ instance : Decidable (ChromaSizeWrong y u v cfg) := by unfold ChromaSizeWrong; i
 instance : Decidable (Covered y u v) := by unfold Covered; infer_instance
 instance : Decidable (Scanned cfg ts) := by unfold Scanned; infer_instance
 
-/-- the statement's four clauses (plus buffer coverage, which frames built with `Plane::new` always satisfy) -/
+/-- the statement's four clauses (plus buffer coverage - the buffer holds the declared geometry and `width * height` fits a
+`usize` - which frames built with `Plane::new` always satisfy) -/
 def WellFormed : Prop :=
   ¬ DecimMismatch u v cfg ∧ y.cfg.width % 2 ^ cfg.ssx = 0 ∧ y.cfg.height % 2 ^ cfg.ssy = 0 ∧ ¬ ChromaSizeWrong y u v cfg ∧
   Covered y u v ∧ (Scanned cfg ts → ¬ OutOfRange y u v cfg)
@@ -187,11 +188,11 @@ theorem yuvNew_verbatim (g : Yuv) (hg : Yuv.new y u v cfg ts = .ok (.ok g)) :
   all_goals (simp at hg; subst hg; exact ⟨rfl, rfl, rfl, rfl, rfl⟩)
 end yuv
 
-/-! ### frames built with `Plane::new` always cover their geometry (proved in Proofs/Frame.lean) -/
+/-! ### frames built with `Plane::new` (whose buffer exists, so its length fits a `usize`) always cover their geometry -/
 theorem planeNew_covers (w h xd yd xp yp tsz : Nat) (data : Array Nat) (hw : 0 < w) (hh : 0 < h)
-    (hs : data.size = (Plane.new w h xd yd xp yp tsz).data.size) :
+    (hs : data.size = (Plane.new w h xd yd xp yp tsz).data.size) (hfit : (Plane.new w h xd yd xp yp tsz).data.size ≤ USIZE_MAX) :
     ({ (Plane.new w h xd yd xp yp tsz) with data := data } : Plane).covers = true :=
-  FrameP.planeNew_covers w h xd yd xp yp tsz data hw hh hs
+  FrameP.planeNew_covers w h xd yd xp yp tsz data hw hh hs hfit
 
 /-- non-vacuity: a concrete well-formed 4:2:0 frame (2x2 luma, 1x1 chroma, u8) meets the hypotheses and is accepted -/
 def exY : Plane := { data := #[10, 20, 30, 40], cfg := { stride := 2, allocHeight := 2, width := 2, height := 2, xdec := 0, ydec := 0, xpad := 0, ypad := 0, xorigin := 0, yorigin := 0 } }
